@@ -96,12 +96,7 @@ func (t *Target) BuildRedirectURL(requestURL *url.URL) {
 	if strings.Contains(t.RedirectURL.Path, "$path") {
 		// set replacement paths
 		replacePath := requestURL.Path
-		var replaceRawPath string
-		if requestURL.RawPath == "" {
-			replaceRawPath = requestURL.Path
-		} else {
-			replaceRawPath = requestURL.RawPath
-		}
+		replaceRawPath := requestURL.EscapedPath()
 		// strip path before replacement
 		if t.StripPath != "" {
 			if strings.HasPrefix(replacePath, t.StripPath) {
